@@ -101,6 +101,10 @@ func traps() []*Scenario {
 				sc.Steps = append(sc.Steps, ax(xfer(o1, "a.t", "o2"), Aux{Data: d, Buf: d == "bytes" || d == "int"}), ax(xfer(o2, "a.t", "kc"), Aux{Data: d, Buf: d == "map"}),
 					ax(via(xfer(s(), "a.t", "o1")), Aux{Data: d}))
 			}
+			// a Buffer receiver is stored as a Buffer owner: the next self-transfer (ByteString) clears the admin, the one after keeps it
+			sc.Steps = append(sc.Steps, ax(xfer(o1, "a.t", "o2"), Aux{Data: "null", Buf: true}), setAdmin(s("o2", "o3"), "a.t", "o3"),
+				ax(xfer(o2, "a.t", "o2"), Aux{Data: "null"}), setAdmin(s("o2", "o3"), "a.t", "o3"), ax(xfer(o2, "a.t", "o2"), Aux{Data: "int"}),
+				ax(xfer(o2, "a.t", "o2"), Aux{Data: "null", Buf: true}), setAdmin(s("o2", "o3"), "a.t", "o3"), ax(xfer(o2, "a.t", "o1"), Aux{Data: "null"}))
 			sc.Steps = append(sc.Steps, ax(renew(o1, "a.t", 1), Aux{Ov1: true}), ax(renew(o1, "a.t", 1), Aux{Ov1: false}), ax(renew(o2, "a.t", 1), Aux{Ov1: true}),
 				ax(renew(cmt, "t", 1), Aux{Ov1: true}), set(o1, "a.t", "TXT", 255, "z"), set(o1, "a.t", "TXT", 256, "z"), set(o1, "a.t", "TXT", -1, "z"))
 			return sc
